@@ -860,7 +860,14 @@ type declInfo struct {
 	pkg  *pkgInfo
 }
 
+// inlineSite: a call that is being executed in place; contract clauses met inside the callee may name the caller's variables.
+type inlineSite struct {
+	pkg  *types.Package
+	call ast.Node
+}
+
 func (x *Unit) inlineDecl(st *State, fd *declInfo, callee *types.Func, pc *preparedCall) []Val {
+	callerPkg := x.pkg.Types
 	if fd.pkg.pkg != x.pkg {
 		// cross-package inlining needs the callee's type info
 		saved := [2]any{x.pkg, x.info}
@@ -875,11 +882,38 @@ func (x *Unit) inlineDecl(st *State, fd *declInfo, callee *types.Func, pc *prepa
 	key, _ := funcKey(callee)
 	x.inlineDepth++
 	defer func() { x.inlineDepth-- }()
+	if pc.call != nil {
+		x.inlineSites = append(x.inlineSites, inlineSite{callerPkg, pc.call})
+		defer func() { x.inlineSites = x.inlineSites[:len(x.inlineSites)-1] }()
+	}
+	if pkgPathOf(callee) == x.unitPkgPath() && x.eng.blockFor(pkgPathOf(callee), key) == nil && x.fr != nil {
+		// a helper without a contract continues the caller's numbering of loops: lines extracted from a function under
+		// contract keep the loop clauses that were written for them
+		x.shareLoops = true
+	}
 	return x.inlineBody(st, sig, fd.decl.Body, params, sig.Recv(), pc.recv, pc.args, key, nil)
+}
+
+func pkgPathOf(f *types.Func) string {
+	if f.Pkg() == nil {
+		return ""
+	}
+	return f.Pkg().Path()
+}
+
+func (x *Unit) unitPkgPath() string {
+	if x.block != nil {
+		return x.block.PkgPath
+	}
+	return x.pkg.PkgPath
 }
 
 func (x *Unit) inlineBody(st *State, sig *types.Signature, body *ast.BlockStmt, params []*types.Var, recvVar *types.Var, recv *Val, args []Val, loopBase string, lit *ast.FuncLit) []Val {
 	fr := &frame{fnType: sig, parent: x.fr, loopBase: loopBase, loopN: new(int), deferLo: len(st.defers), lit: lit}
+	if x.shareLoops {
+		x.shareLoops = false
+		fr.loopBase, fr.loopN = x.fr.loopBase, x.fr.loopN
+	}
 	for i, p := range params {
 		if i < len(args) {
 			st.env[p] = x.convert(st, args[i], p.Type())
